@@ -744,6 +744,30 @@ func (cx *c03ctx) exec(line string) {
 				r.Fail(sig, fmt.Sprintf("SetCellHyperLink(%s, %q) then GetCellHyperLink(%s) = %v %q (%v)", sp, link, sp, found, target, err), ln, cx.replay())
 			}
 		}
+	case "hlrm":
+		sp := unhx(w[1])
+		ps := cx.watch()
+		before := cx.observe(ps)
+		st := c03call(func() error { return cx.f.SetCellHyperLink(c03Sheet, sp, "", "None") })
+		ln := emit(line, withDump(st))
+		cx.frameWrite(ln, ps, before, nil, "hlrm")
+		if st == "ok" {
+			if found, _, err := cx.f.GetCellHyperLink(c03Sheet, sp); err != nil || found {
+				r.Fail("hyperlink:remove", fmt.Sprintf("link removed from %s but GetCellHyperLink still finds one (%v)", sp, err), ln, cx.replay())
+			}
+		}
+	case "hlget":
+		sp := unhx(w[1])
+		var found bool
+		var target string
+		st := c03call(func() error { var e error; found, target, e = cx.f.GetCellHyperLink(c03Sheet, sp); return e })
+		if st == "ok" {
+			st = "nolink"
+			if found {
+				st = "link " + hx(target)
+			}
+		}
+		emit(line, st)
 	case "mrg", "unm":
 		// both functions decode topLeft + ":" + bottomRight as one range reference
 		s1, s2 := unhx(w[1]), unhx(w[2])
@@ -1457,8 +1481,18 @@ func (g *c03gen) transcript(mode, nOps int) {
 			if l := g.timeLine(cell); l != "" {
 				cx.exec(l)
 			}
-		case k < mergeW+42:
-			cx.exec(fmt.Sprintf("hl %s %s", hx(cell), hx("Sheet1!A1")))
+		case k < mergeW+46:
+			switch rng.Intn(4) {
+			case 0:
+				cx.exec("hlget " + hx(cell))
+			case 1:
+				cx.exec("hlrm " + hx(cell))
+				cx.exec("hlget " + hx(cell))
+			default:
+				cx.exec(fmt.Sprintf("hl %s %s", hx(cell), hx(fmt.Sprintf("Sheet1!A%d", rng.Range(1, 9)))))
+				c2, r2 := g.pos(mode)
+				cx.exec("hlget " + hx(g.spell(c2, r2)))
+			}
 		default:
 			cx.exec(strings.Replace(g.payload(), "CELL", hx(cell), 1))
 		}
@@ -1498,7 +1532,8 @@ var c03witnesses = [][]string{
 	{"new 1", "mrg A2 C2", "unm B1 B3", "gm"},                                                // unmerge by a crossing range
 	{"new 2", "set str A1 sst " + c03tokS("anchor") + " ~", "set int B2 tv ~ " + hx("7"), "mrg A1 B2", "get B2", "set str b2 sst " + c03tokS("via b2") + " ~", "get A1", "obs 1 1 3 3"},
 	{"new 1", "mrg A1 B2", "TIME B2", "gsty A1", "gsty B2"},                                  // date style lands on the raw cell
-	{"new 1", "mrg A1 B2", "hl B2 " + hx("Sheet1!C3")},                                       // hyperlink read is not redirected
+	{"new 1", "mrg A1 B2", "hl B2 " + hx("Sheet1!C3"), "hlget A1", "hlget b2", "hlget $A$2", "hlget C1", "hl a1 " + hx("Sheet1!D4"), "hlget B1",
+		"hl C1 " + hx("x"), "unm A1 A1", "hlget B2", "hlget A1", "hlrm A1", "hlget A1", "hlget C1", "hlrm XFE1", "hlget A0"},                                       // hyperlink read is not redirected
 	{"new 1", "frm A1 " + hx("1+1"), "TIME A1", "frm B1 " + hx("2+2"), "set rich B1 sst R" + hx("rt") + " ~"},
 	{"new 1", "set str A1 sst " + c03tokS("_x0041_") + " ~", "set str A2 sst " + c03tokS("_x005F_x0041_") + " ~", "set str A3 sst " + c03tokS("a\x01b_x000D_") + " ~", "get A1", "get A2"},                                           // C01's look-alike
 	{"new 1", "set str.x5 A1 sst " + c03tokS(strings.Repeat("y", 32767)) + " ~", "set str A2 sst " + c03tokS(strings.Repeat("é", 32767)) + " ~"},
@@ -1526,7 +1561,7 @@ func c03encodeWitness(g *c03gen, line string) string {
 		enc(2)
 	case "set", "seq", "val":
 		enc(2)
-	case "get", "gsty", "frm", "hl":
+	case "get", "gsty", "frm", "hl", "hlget", "hlrm":
 		enc(1)
 	case "TIME":
 		// 2023-11-14T22:13:20Z; the serial text is C19's subject, fixed here
